@@ -36,6 +36,14 @@ CHECKS = {
             "full turns), unchanged continuation below and half-ellipsoid head. Tie: bit-exact correspondence on >10^4 kernel and "
             "world cases per run; search: exact rational oracle on lattices, definition-based oracle for plumes.",
             "proof over Reals of the winding-number kernel + bit-exact correspondence + exact rational oracle", "4 C04"),
+    "C19": ("Theorems (Properties_C19.v, over exact reals): the pruned kd-tree search returns a node at the true minimum distance "
+            "for every node array with the nth_element invariant; polygon test = closed-polygon definition; the trench curve "
+            "passes through its coordinates and the reported closest point is the curve point at the reported parameter; the "
+            "same-depth distance is r*acos of the spherical law of cosines for every pair; spherical round trip (atan2 law as "
+            "premise). Not a theorem: optimality of the Newton closest point (dense-scan search). Tie: kernels called directly "
+            "through wbprobe vs the extracted model, bit-for-bit, the kd node array taken from the implementation and checked "
+            "against kd_inv.",
+            "proof over Reals of kd search / winding number / great circle / Bezier identities + bit-exact kernel correspondence + brute-force oracles", "4 C19"),
 }
 
 NOT_YET = {
